@@ -124,6 +124,83 @@ def run(ctx, thorough_bounds=False):
     _after_update(ctx)
     _generated(ctx)
     if not ctx.violations: _resize_and_configs(ctx)
+    if not ctx.violations: _machine(ctx)
+
+
+def _machine(ctx):
+    """statement lists on ONE live collection (members resized, member/collection update_self_config, .mazes, [i], len, lengths, cfg.n_mazes)
+    against the state machine MZ.CollState (driver op C16.machine; theorems C16_state_*). Oracle on the real code, independent of the model:
+    len / [i] / dataset_lengths follow the members as they are now at every statement, and whenever every resized member has had its
+    config updated since (by its own or the collection's update_self_config) cfg.n_mazes equals len. A stale `.mazes` after a later resize
+    is the library's documented cached_property and is compared with the model only."""
+    from maze_dataset import MazeDataset, MazeDatasetConfig
+    from maze_dataset.dataset.collected_dataset import MazeDatasetCollection, MazeDatasetCollectionConfig
+    rng = ctx.rng
+    pool = {}
+    def mz(i):
+        if i not in pool: pool[i] = _mazes(2, (i % 40) + 1, 900 + i // 40)[i % 40]
+        return pool[i]
+    nid = [0]
+    def fresh(n):
+        r = list(range(nid[0], nid[0] + n)); nid[0] += n; return r
+    reqs, reals, cases = [], [], []
+    for case_no in range(150 if ctx.quick else 2500):
+        nm = rng.randrange(0, 5)
+        members = [fresh(rng.randrange(0, 4)) for _ in range(nm)]
+        extra = [rng.randrange(0, 4)] if rng.random() < 0.15 else []
+        own = rng.random() < 0.5
+        ops = []
+        for _ in range(rng.randrange(1, 25)):
+            t = rng.choice(["set", "set", "mupd", "cupd", "mazes", "get", "len", "lengths", "count"])
+            if t == "set": ops.append(["set", rng.randrange(0, nm + 1), fresh(rng.randrange(0, 4))])
+            elif t == "mupd": ops.append(["mupd", rng.randrange(0, nm + 1)])
+            elif t == "get": ops.append(["get", rng.randrange(0, 12)])
+            else: ops.append([t])
+        case = dict(machine=True, members=members, ops=ops, extra=extra, own_cfgs=own)
+        ctx.case(case, nontrivial=any(members)); ctx.count("machine_case"); ctx.count(f"machine_ops={min(len(ops) // 5 * 5, 20)}+")
+        ds = [MazeDataset(MazeDatasetConfig(name=f"m{k}", grid_n=2, n_mazes=len(l)), [mz(i) for i in l]) for k, l in enumerate(members)]
+        cfgs = [d.cfg for d in ds] if own else [MazeDatasetConfig(name=f"m{k}", grid_n=2, n_mazes=len(l)) for k, l in enumerate(members)]
+        cfgs = cfgs + [MazeDatasetConfig(name=f"x{k}", grid_n=2, n_mazes=n) for k, n in enumerate(extra)]
+        c = MazeDatasetCollection(MazeDatasetCollectionConfig(name="c", maze_dataset_configs=cfgs), ds)
+        ident = {}
+        def idof(m):
+            for k, v in pool.items():
+                if v is m: return k
+            return -1
+        outs, dirty, cur = [], set(), [list(l) for l in members]
+        for k, op in enumerate(ops):
+            t = op[0]
+            try:
+                if t == "set":
+                    c.maze_datasets[op[1]].mazes = [mz(i) for i in op[2]]; cur[op[1]] = list(op[2]); dirty.add(op[1]); outs.append(None)
+                elif t == "mupd": c.maze_datasets[op[1]].update_self_config(); dirty.discard(op[1]); outs.append(None)
+                elif t == "cupd": c.update_self_config(); dirty.clear(); outs.append(None)
+                elif t == "mazes": outs.append([idof(m) for m in c.mazes])
+                elif t == "get": outs.append(idof(c[op[1]]))
+                elif t == "len": outs.append(len(c))
+                elif t == "lengths": outs.append([int(x) for x in c.dataset_lengths])
+                elif t == "count": outs.append(int(c.cfg.n_mazes))
+            except IndexError:
+                outs.append({"error": "IndexError"})
+            flat = [i for l in cur for i in l]
+            o = outs[-1]
+            bad = None
+            if t == "len" and o != len(flat): bad = f"len gives {o}, the members hold {len(flat)} mazes"
+            elif t == "lengths" and o != [len(l) for l in cur]: bad = f"dataset_lengths gives {o}, the members hold {[len(l) for l in cur]}"
+            elif t == "get" and o != (flat[op[1]] if op[1] < len(flat) else {"error": "IndexError"}):
+                bad = f"collection[{op[1]}] gives maze #{o}, position {op[1]} of the concatenation of the members is {'#%d' % flat[op[1]] if op[1] < len(flat) else 'past the end (IndexError expected)'}"
+            elif t == "count" and not dirty and not extra and o != len(flat):
+                bad = f"cfg.n_mazes gives {o} with every member config up to date, the members hold {len(flat)} mazes"
+            if bad:
+                ctx.violate(f"statement {k} ({op[0]}) of {ops[:k + 1]} on a collection with members {members}: {bad}", case); return
+        reqs.append(dict(op="C16.machine", members=members, ops=ops, extra_cfg_n=sum(extra))); reals.append(outs); cases.append(case)
+    for case, real, o in zip(cases, reals, ctx.driver.run_parallel(reqs)):
+        ctx.traces_validated += 1
+        if "error" in o and "outs" not in o:
+            ctx.disagree(f"driver error {o['error']}", case); continue
+        if o["outs"] != real:
+            k = next((i for i, (a, b) in enumerate(zip(o["outs"], real)) if a != b), None)
+            ctx.disagree(f"collection state machine and MazeDatasetCollection differ at statement {k} of {case['ops']} (members {case['members']}): model={o['outs'][k] if k is not None else o['outs']} impl={real[k] if k is not None else real}", case)
 
 
 def _generated(ctx):
@@ -234,6 +311,8 @@ def search(ctx):
     if ctx.violations: return
     _resize_and_configs(ctx)
     if ctx.violations: return
+    _machine(ctx)
+    if ctx.violations: return
     for lens in _vectors(ctx, thorough_bounds=True):
         _check(ctx, lens)
         if ctx.violations:
@@ -246,6 +325,8 @@ def replay(ctx, rp):
         _generated(ctx); return
     if case.get("resize"):
         _resize_and_configs(ctx); return
+    if case.get("machine"):
+        _machine(ctx); return
     if "order" in case:
         coll, members = _build(tuple(case["lens"]))
         flat = [m for d in members for m in d.mazes]
